@@ -1,5 +1,6 @@
-(* C06 — every persistence-matrix flavour computes the same, correct barcode.
-   Property theorems only (proofs in Reduce.v / ReduceExec.v). *)
+(* C06 — vineyard swaps and cell removals leave the matrix as if rebuilt from scratch.
+   Property theorems only (proofs in Reduce.v / ReduceExec.v): "as if rebuilt" = after every step the exposed state is a
+   decomposition accepted by the verified checker of the boundary matrix of the CURRENT order, whose pairing is unique. *)
 From Coq Require Import ZArith List Znumtheory.
 Require Import Reduce ReduceExec.
 Local Open Scope Z_scope.
